@@ -235,6 +235,40 @@ theorem C07_reclaimed_probabilistic (s : Prob) (hd : NodupKeys s.data) (k : Key)
     exact allLive_after_write (o := 0) (n := 0) s.data now k _ (Or.inr rfl)
   · exact anyStore_setnx_nodup (.prob s) hd k v ttl now
 
+theorem find_none_key_ne {d : Data} {k : Key} (h : Data.find d k = none) : ∀ e ∈ d, e.key ≠ k := by
+  induction d with
+  | nil => intro e he; cases he
+  | cons x rest ih =>
+    rw [find_cons] at h
+    by_cases hx : x.key = k
+    · simp [hx] at h
+    · simp only [hx, if_false] at h
+      intro e he
+      cases he with
+      | head => exact hx
+      | tail _ he' => exact ih h e he'
+
+/-- **the counting step**: the table holds at most one entry per key (keys are pairwise distinct), so
+    if every held entry belongs to a key of the active set `A` - after a guaranteed cleanup point
+    that is every key whose state is unexpired plus the key just written (`AllLiveExcept`) - the
+    number of stored entries is at most `|A|`, however many keys were ever seen. -/
+theorem C07_entries_bounded_by_active (d : Data) (A : List Key) (hd : NodupKeys d)
+    (hA : ∀ e ∈ d, e.key ∈ A) : d.length ≤ A.length := by
+  induction d generalizing A with
+  | nil => exact Nat.zero_le _
+  | cons x rest ih =>
+    obtain ⟨h1, h2⟩ := hd
+    have hx : x.key ∈ A := hA x (List.mem_cons_self ..)
+    have hne := find_none_key_ne h1
+    have hrest : ∀ e ∈ rest, e.key ∈ A.erase x.key := by
+      intro e he
+      exact (List.mem_erase_of_ne (hne e he)).mpr (hA e (List.mem_cons_of_mem _ he))
+    have := ih (A.erase x.key) h2 hrest
+    rw [List.length_erase_of_mem hx] at this
+    have hpos : 0 < A.length := List.length_pos_of_mem hx
+    simp only [List.length_cons]
+    omega
+
 /-! non-vacuity: a periodic store holding two expired and one live entry, written at its cleanup instant -/
 example : (Periodic.ops.setnx ⟨[⟨"a", 1, 5⟩, ⟨"b", 2, 100⟩, ⟨"c", 3, 9⟩], 10, 60, 0⟩ "n" 7 30 10).1.data
     = [⟨"n", 7, 40⟩, ⟨"b", 2, 100⟩] := by decide
